@@ -989,6 +989,16 @@ func (fr *Frame) localsBefore(in ssa.Instruction) map[string]func(*State) SV {
 			if x == in {
 				break
 			}
+			if phi, isPhi := x.(*ssa.Phi); isPhi {
+				// a source variable merged at the start of this block (`removing` after `if … { removing = f() }`): its phi carries
+				// the source name and no debug ref; without this the name would still denote the value bound before the branch
+				if phi.Comment != "" && !strings.HasPrefix(phi.Comment, "range") && !strings.Contains(phi.Comment, ".") && !strings.ContainsAny(phi.Comment, "&|") {
+					if pv, known := fr.vals[phi]; known {
+						out[phi.Comment] = func(*State) SV { return pv }
+					}
+				}
+				continue
+			}
 			d, ok := x.(*ssa.DebugRef)
 			if !ok {
 				continue
